@@ -5,10 +5,16 @@
    that built them; [rho] re-labels the classes ([fun c => c]: as labelled, [fun _ => c]: the same specification built
    by class c at every level); [str_toks rho n x] = str(query) as a list of role-tagged tokens (coq/Dialect.v), whose
    text is compared with pypika and with Query.str_query on every run; [n] is recursion fuel (one unit per nesting
-   level, out-of-fuel is an error value, so "= Ok ts" excludes it). *)
+   level, out-of-fuel is an error value, so "= Ok ts" excludes it).
+
+   State after the repairs 1270518 (function arguments), 07d9040 (sub-query alias quote), 1518abd / 76524c2 / d20983c (set
+   operations), 3ab11e6 (GROUP BY items), 97eddd6 (comparison alias): the property holds up to two documented,
+   class-independent deviations that pypika's own tests pin — WITH names are rendered bare, and a table alias used as a
+   column qualifier takes quote_char (visible for Snowflake only, whose alias quote differs from its quote_char). *)
 From PV Require Import Base Crit gen.TermsTable Terms Page gen.QueryTable Query QueryCorr Dialect DialectCorr.
 From PV Require Import lemmas.DialectTerms lemmas.DialectQuery lemmas.DialectProps.
 
+(* the property, literally *)
 Definition C07_full_statement : Prop :=
   forall (rho : cls -> cls) (n : nat) (x : query) (ts : list dtok),
     str_toks rho n x = Ok ts ->
@@ -21,64 +27,103 @@ Definition C07_full_statement : Prop :=
        token sequence is the same whichever classes build the statement *)
     /\ (forall rho' ts', str_toks rho' n x = Ok ts' -> erase ts' = erase ts).
 
-(* ---- refuted: the faithful model reproduces pypika's deviations (each witness is also a corpus case) ---- *)
+(* the property minus the documented residue: tokens that are WITH names / table-alias qualifiers are exempt *)
+Definition C07_statement_modulo_residue : Prop :=
+  forall (rho : cls -> cls) (n : nat) (x : query) (ts : list dtok),
+    str_toks rho n x = Ok ts ->
+    let c := top_cls_r rho x in
+    Forall (fun t => residue_tok t = true \/ strict_tok (conv_cls c) (qalias_quote c) t) ts
+    /\ (forall rho' ts', str_toks rho' n x = Ok ts' -> erase ts' = erase ts).
+
+(* ---- holds: all statements, all labellings of the sub-statements with classes, all depths ---- *)
+Theorem C07_holds : C07_statement_modulo_residue.
+Proof.
+  intros rho n x ts H c. split.
+  - exact (str_toks_strict_nonresidue rho n x ts H).
+  - intros rho' ts' H'. exact (str_toks_same rho' rho n x ts' ts H' H).
+Qed.
+Print Assumptions C07_holds.
+
+(* the residue, exactly: what the exempt tokens carry instead *)
+Theorem C07_per_token_holds :
+  forall rho n x ts, str_toks rho n x = Ok ts -> Forall (strict_or_residue (top_cls_r rho x)) ts.
+Proof. exact str_toks_strict. Qed.
+Print Assumptions C07_per_token_holds.
+
+(* the unrestricted per-token claim for the statements / classes on which the residue coincides with the convention:
+   no WITH name or quote_char empty (Oracle, Snowflake); no aliased-table qualifier or alias quote = quote_char (every class
+   but Snowflake).  For OracleQuery both class conditions hold: the first sentence of the property holds for every statement. *)
+Theorem C07_first_sentence_on_fragment :
+  forall rho n x ts, let c := top_cls_r rho x in
+    str_toks rho n x = Ok ts ->
+    (cte_ok c = true \/ forallb no_cte_tok ts = true) -> (qual_ok c = true \/ forallb no_qual_tok ts = true) ->
+    Forall (strict_tok (conv_cls c) (qalias_quote c)) ts.
+Proof. exact str_toks_all_strict. Qed.
+Print Assumptions C07_first_sentence_on_fragment.
+
+Example C07_residue_classes :
+  filter cte_ok all_cls = [COracle; CSnowflake]
+  /\ filter qual_ok all_cls = [CQuery; CMySQL; CVertica; COracle; CPostgreSQL; CRedshift; CMSSQL; CClickHouse; CSQLLite]
+  /\ filter (fun c => cte_ok c && qual_ok c) all_cls = [COracle].
+Proof. vm_compute. repeat split. Qed.
+
+(* ---- the literal statement stays refuted by exactly that residue ---- *)
 Theorem C07_refuted : ~ C07_full_statement.
 Proof.
-  intros H. destruct (H rid FUEL w_fn_alias (toks_of w_fn_alias) eq_refl) as [Hs _].
+  intros H. destruct (H rid FUEL w_cte (toks_of w_cte) eq_refl) as [Hs _].
   apply strict_all_spec in Hs. vm_compute in Hs. discriminate Hs.
 Qed.
 Print Assumptions C07_refuted.
 
-(* the distinct ways in which it fails: model text = pypika's text, and some token is not strict *)
-Example C07_witness_function_arg_alias :        (* Snowflake outer, generic sub-query inside COALESCE: inner alias bare *)
-  query_text w_fn_alias = w_fn_alias_text /\ res_text (str_toks rid FUEL w_fn_alias) = w_fn_alias_text /\ strict_ok w_fn_alias = false.
-Proof. vm_compute. repeat split. Qed.
-Example C07_witness_function_arg_as_keyword :   (* generic outer, ClickHouse sub-query inside a function: keeps its AS *)
-  query_text w_fn_as = w_fn_as_text /\ res_text (str_toks rid FUEL w_fn_as) = w_fn_as_text /\ strict_ok w_fn_as = false.
-Proof. vm_compute. repeat split. Qed.
-Example C07_witness_query_alias_inner_class :   (* MySQL outer, PostgreSQL sub-query in FROM: its alias gets PostgreSQL's quote *)
-  query_text w_qalias = w_qalias_text /\ res_text (str_toks rid FUEL w_qalias) = w_qalias_text /\ strict_ok w_qalias = false.
-Proof. vm_compute. repeat split. Qed.
-Example C07_witness_set_operation_operands :    (* each operand of a top-level set operation fills in its own alias convention *)
-  query_text w_setop_mixed = w_setop_mixed_text /\ res_text (str_toks rid FUEL w_setop_mixed) = w_setop_mixed_text
-  /\ strict_ok w_setop_mixed = false.
-Proof. vm_compute. repeat split. Qed.
-Example C07_witness_cte_name_bare :             (* WITH names are never quoted *)
+Example C07_witness_cte_name_bare :             (* WITH names are never quoted (pinned by pypika's tests) *)
   query_text w_cte = w_cte_text /\ res_text (str_toks rid FUEL w_cte) = w_cte_text /\ strict_ok w_cte = false.
 Proof. vm_compute. repeat split. Qed.
-Example C07_witness_criterion_alias_bare :      (* quote_char does not reach the alias of a comparison *)
-  query_text w_crit_alias = w_crit_alias_text /\ res_text (str_toks rid FUEL w_crit_alias) = w_crit_alias_text
-  /\ strict_ok w_crit_alias = false.
-Proof. vm_compute. repeat split. Qed.
-Example C07_witness_set_operation_order_by :    (* Snowflake: selected alias quoted, the ORDER BY reference to it bare *)
-  query_text w_setop_order = w_setop_order_text /\ res_text (str_toks rid FUEL w_setop_order) = w_setop_order_text
-  /\ strict_ok w_setop_order = false.
-Proof. vm_compute. repeat split. Qed.
-Example C07_witness_function_arg_term_alias :   (* Snowflake: an aliased literal inside a function call loses the alias quote *)
-  query_text w_fn_term_alias = w_fn_term_alias_text /\ res_text (str_toks rid FUEL w_fn_term_alias) = w_fn_term_alias_text
-  /\ strict_ok w_fn_term_alias = false.
-Proof. vm_compute. repeat split. Qed.
-Example C07_witness_table_alias_qualifier :     (* Snowflake: table alias quoted where introduced, bare where it qualifies a column *)
+Example C07_witness_table_alias_qualifier :     (* Snowflake: table alias quoted where introduced, bare as qualifier (pinned) *)
   query_text w_qualifier = w_qualifier_text /\ res_text (str_toks rid FUEL w_qualifier) = w_qualifier_text /\ strict_ok w_qualifier = false.
 Proof. vm_compute. repeat split. Qed.
-Example C07_witness_set_operation_alias :       (* Snowflake: a set operation's alias is quoted, references to it are bare *)
-  query_text w_setop_alias = w_setop_alias_text /\ res_text (str_toks rid FUEL w_setop_alias) = w_setop_alias_text
-  /\ strict_ok w_setop_alias = false.
+
+(* the former deviations, now repaired: the witnesses render with the OUTER convention everywhere (regression pins;
+   the same statements are corpus cases whose text is compared with pypika's on every run) *)
+Example C07_repaired_function_arg_alias :
+  query_text w_fn_alias = w_fn_alias_text /\ res_text (str_toks rid FUEL w_fn_alias) = w_fn_alias_text /\ strict_ok w_fn_alias = true.
 Proof. vm_compute. repeat split. Qed.
-Example C07_witness_function_arg_groupby_alias : (* Oracle outer: groupby_alias=False is lost below a function call *)
+Example C07_repaired_function_arg_as_keyword :
+  query_text w_fn_as = w_fn_as_text /\ res_text (str_toks rid FUEL w_fn_as) = w_fn_as_text /\ strict_ok w_fn_as = true.
+Proof. vm_compute. repeat split. Qed.
+Example C07_repaired_query_alias :
+  query_text w_qalias = w_qalias_text /\ res_text (str_toks rid FUEL w_qalias) = w_qalias_text /\ strict_ok w_qalias = true.
+Proof. vm_compute. repeat split. Qed.
+Example C07_repaired_set_operation_operands :
+  query_text w_setop_mixed = w_setop_mixed_text /\ res_text (str_toks rid FUEL w_setop_mixed) = w_setop_mixed_text
+  /\ strict_ok w_setop_mixed = true.
+Proof. vm_compute. repeat split. Qed.
+Example C07_repaired_criterion_alias :
+  query_text w_crit_alias = w_crit_alias_text /\ res_text (str_toks rid FUEL w_crit_alias) = w_crit_alias_text
+  /\ strict_ok w_crit_alias = true.
+Proof. vm_compute. repeat split. Qed.
+Example C07_repaired_set_operation_order_by :
+  query_text w_setop_order = w_setop_order_text /\ res_text (str_toks rid FUEL w_setop_order) = w_setop_order_text
+  /\ strict_ok w_setop_order = true.
+Proof. vm_compute. repeat split. Qed.
+Example C07_repaired_function_arg_term_alias :
+  query_text w_fn_term_alias = w_fn_term_alias_text /\ res_text (str_toks rid FUEL w_fn_term_alias) = w_fn_term_alias_text
+  /\ strict_ok w_fn_term_alias = true.
+Proof. vm_compute. repeat split. Qed.
+Example C07_repaired_set_operation_alias :
+  query_text w_setop_alias = w_setop_alias_text /\ res_text (str_toks rid FUEL w_setop_alias) = w_setop_alias_text
+  /\ strict_ok w_setop_alias = true.
+Proof. vm_compute. repeat split. Qed.
+Example C07_repaired_function_arg_groupby_alias :
   query_text w_fn_gba = w_fn_gba_text /\ res_text (str_toks rid FUEL w_fn_gba) = w_fn_gba_text.
 Proof. vm_compute. repeat split. Qed.
-Example C07_witness_function_arg_literal_quote : (* explicit secondary_quote_char is lost below a function call *)
+Example C07_repaired_function_arg_literal_quote :
   res_text (kw_toks rid FUEL w_fn_literal_kw w_fn_literal) = w_fn_literal_text
   /\ sres_text (rquery (kw_ctx rid w_fn_literal_kw w_fn_literal) false false None w_fn_literal) = w_fn_literal_text.
 Proof. vm_compute. repeat split. Qed.
 
-(* ---- what holds, in full generality (all statements, all labellings, all depths) ---- *)
+(* ---- further statements, all unrestricted ---- *)
 
-(* 1. EXACT characterisation: every token carries the quote that its origin prescribes — identifiers always the
-      outermost quote_char; aliases / literals / AS the values of whoever supplied those three kwargs (the outermost
-      call, the fall-backs below a function call, or the class of a sub-query that sits below a function call);
-      a sub-query's alias the query-alias quote of the class that built it; WITH names none. *)
+(* EXACT characterisation, also for get_sql with explicit kwargs (where the outermost call may leave keys absent) *)
 Theorem C07_exact_holds :
   forall rho n x ts, str_toks rho n x = Ok ts -> Forall (exact_tok (conv_x rho x)) ts.
 Proof. exact str_toks_exact. Qed.
@@ -89,16 +134,14 @@ Theorem C07_exact_kwargs_holds :
 Proof. exact kw_toks_exact. Qed.
 Print Assumptions C07_exact_kwargs_holds.
 
-(* 2. identifiers and string literals of str(query): the OUTER class's quote_char / secondary quote at every depth,
-      including function arguments, CASE branches, joins, set-operation operands, sub-queries of any class *)
+(* identifiers and string literals: the OUTER class's quote_char / secondary quote at every depth *)
 Theorem C07_identifiers_literals_hold :
   forall rho n x ts, str_toks rho n x = Ok ts -> Forall (ident_lit_tok (top_cls_r rho x)) ts.
 Proof. exact str_toks_ident_lit. Qed.
 Print Assumptions C07_identifiers_literals_hold.
 
-(* 3. the second sentence of the property, unrestricted: devendored + quote-erased token sequences coincide for any two
-      labellings (in particular for any two of the ten classes building the same specification), and for any explicit
-      quote kwargs *)
+(* the second sentence of the property: devendored + quote-erased token sequences coincide for any two labellings and
+   for any explicit quote kwargs *)
 Theorem C07_tokens_same_holds :
   forall rho rho' n x ts ts', str_toks rho n x = Ok ts -> str_toks rho' n x = Ok ts' -> erase ts = erase ts'.
 Proof. exact str_toks_same. Qed.
@@ -109,51 +152,31 @@ Theorem C07_tokens_same_kwargs_holds :
 Proof. exact kw_toks_same. Qed.
 Print Assumptions C07_tokens_same_kwargs_holds.
 
-(* 4. the per-token claim on the fragment "no alias / AS / query-alias token whose origin's convention differs from the
-      outer one" (decidable on the rendering: [benign_tok]) *)
-Theorem C07_on_fragment :
-  forall rho n x ts qa, str_toks rho n x = Ok ts ->
-    forallb (benign_tok (conv_x rho x) qa) ts = true -> Forall (strict_tok (conv_x rho x) qa) ts.
-Proof. exact str_toks_strict_on_fragment. Qed.
-Print Assumptions C07_on_fragment.
+(* explicit kwargs: the per-token claim on renderings whose tokens all originate from the kwargs themselves *)
+Theorem C07_kwargs_on_fragment :
+  forall rho n kw x ts qa, kw_toks rho n kw x = Ok ts ->
+    forallb (benign_tok (conv_kw rho kw x) qa) ts = true -> Forall (strict_tok (conv_kw rho kw x) qa) ts.
+Proof. exact kw_toks_strict_on_fragment. Qed.
+Print Assumptions C07_kwargs_on_fragment.
 
-(* 4b. the same claim for a class-level (syntactic) fragment: an outer class whose convention survives a function call
-       ([transparent]: generic, MySQL, Vertica, Oracle, PostgreSQL, Redshift, MSSQL, SQLite) and sub-statements built by
-       classes whose alias / AS / query-alias convention agrees with it ([compat], e.g. any mix of the double-quote
-       classes): every identifier, alias, alias reference, qualifier, sub-query alias, literal and AS choice at every depth,
-       function arguments included, follows the outer class.  Only the two class-independent deviations (WITH names,
-       comparison aliases) are left out. *)
-Theorem C07_compatible_classes_partial :
-  forall rho n x ts, let c := top_cls_r rho x in
-    transparent c = true -> (forall c0, compat c (rho c0) = true) ->
-    str_toks rho n x = Ok ts -> Forall (strict_core (conv_cls c) (qalias_quote c)) ts.
-Proof. exact str_toks_compatible. Qed.
-Print Assumptions C07_compatible_classes_partial.
-
-Example C07_compatible_classes_nonvacuous :
-  filter transparent all_cls = [CQuery; CMySQL; CVertica; COracle; CPostgreSQL; CRedshift; CMSSQL; CSQLLite]
-  /\ filter (compat CQuery) all_cls = [CQuery; CMySQL; CVertica; COracle; CPostgreSQL; CRedshift; CMSSQL; CSQLLite; CSnowflake]
-  /\ filter (compat CMySQL) all_cls = [CQuery; CMySQL; CVertica; COracle; CRedshift; CMSSQL; CSQLLite]
-  /\ filter (compat COracle) all_cls = [CQuery; CMySQL; CVertica; COracle; CRedshift; CMSSQL; CSQLLite].
-Proof. vm_compute. repeat split. Qed.
-
-(* 5. outermost class wins: _set_kwargs_defaults only fills absent keys; once the outer query has filled them a nested
-      query of ANY class leaves the context alone (up to groupby_alias, which can only be switched off); below a
-      function call the keys are absent again and the inner class's values come back *)
+(* outermost class wins: _set_kwargs_defaults only fills absent keys; a nested query of ANY class leaves the context alone
+   (groupby_alias can only be switched off); since 1270518 this also holds below a function call *)
 Theorem C07_outermost_wins :
   (forall c k, k_abs k = false -> kc (defaults c k) = kc k)
+  /\ (forall c k, k_abs k = false -> k_qaq (defaults c k) = k_qaq k)
   /\ (forall c c' k, kc (defaults c' (defaults c k)) = kc (defaults c k))
   /\ (forall c k, q (kc (defaults c k)) = q (kc k) /\ dia (kc (defaults c k)) = dia (kc k))
   /\ (forall c k, k_gba (defaults c k) = cls_gba c && k_gba k)
-  /\ (forall c k, let k' := defaults c (fk k) in
-        sq (kc k') = cls_sq c /\ aq (kc k') = cls_aq c /\ askw (kc k') = cls_askw c /\ q (kc k') = q (kc k) /\ k_gba k' = cls_gba c).
+  /\ (forall c k, k_abs k = false -> let k' := defaults c (fk k) in
+        sq (kc k') = sq (kc k) /\ aq (kc k') = aq (kc k) /\ askw (kc k') = askw (kc k) /\ q (kc k') = q (kc k)
+        /\ k_qaq k' = k_qaq k /\ k_gba k' = cls_gba c && k_gba k).
 Proof.
-  split; [exact defaults_present|]. split; [exact defaults_outer_wins|]. split; [exact defaults_quote_kept|].
-  split; [exact defaults_gba|exact defaults_below_function].
+  split; [exact defaults_present|]. split; [exact defaults_qaq_kept|]. split; [exact defaults_outer_wins|].
+  split; [exact defaults_quote_kept|]. split; [exact defaults_gba|exact defaults_below_function].
 Qed.
 Print Assumptions C07_outermost_wins.
 
-(* 6. expressions: the token view IS the shared renderer (Terms.render), so 1-3 hold of Terms.render itself *)
+(* expressions: the token view IS the shared renderer (Terms.render) *)
 Theorem C07_terms_token_view :
   forall t c og, render c t = rmap tflat (ttoks c og t).
 Proof. exact ttoks_render. Qed.
@@ -164,8 +187,6 @@ Theorem C07_terms_exact :
 Proof. exact ttoks_exact. Qed.
 Print Assumptions C07_terms_exact.
 
-(* quote-parametricity of Terms.render: contexts that agree on with_alias / with_namespace / subquery / subcriterion give
-   the same erased tokens (and fail on the same terms), whatever their quote characters, AS keyword and dialect *)
 Theorem C07_terms_quote_parametric :
   forall t c c' og og', csim c c' -> erase_res (ttoks c og t) = erase_res (ttoks c' og' t).
 Proof. exact ttoks_erase. Qed.
@@ -176,7 +197,7 @@ Example C07_example_nested :
   query_text p_nested = p_nested_text
   /\ res_text (str_toks rid FUEL p_nested) = p_nested_text
   /\ strict_ok p_nested = true
-  /\ forallb (benign_tok (conv_x rid p_nested) (qalias_quote CMySQL)) (toks_of p_nested) = true
+  /\ forallb no_cte_tok (toks_of p_nested) = true
   /\ erase_res (str_toks (relabel (Some CSnowflake)) FUEL p_nested) = erase_res (str_toks rid FUEL p_nested)
   /\ erase_res (str_toks (relabel (Some CClickHouse)) FUEL p_nested) = erase_res (str_toks (relabel (Some COracle)) FUEL p_nested)
   /\ res_text (str_toks (relabel (Some CSnowflake)) FUEL p_nested) <> res_text (str_toks rid FUEL p_nested).
